@@ -192,6 +192,16 @@ func (m *Module) validateTable(enabledFeatures api.CoreFeatures, tables []Table,
 			}
 		}
 
+		// The value of a global becomes a reference in the table as is: it must come from an
+		// imported, immutable global of the element's reference type.
+		for ei, init := range elem.Init {
+			if index, ok := unwrapElementInitGlobalReference(init); ok && init != ElementInitNullReference {
+				if err := m.verifyImportGlobalRef(idx, Index(ei), index, elem.Type); err != nil {
+					return err
+				}
+			}
+		}
+
 		if elem.IsActive() {
 			if len(tables) <= int(elem.TableIndex) {
 				return fmt.Errorf("unknown table %d as active element target", elem.TableIndex)
@@ -305,11 +315,37 @@ func (m *Module) verifyImportGlobalI32(sectionID SectionID, sectionIdx Index, id
 				if imp.DescGlobal.ValType != ValueTypeI32 {
 					return fmt.Errorf("%s[%d] (global.get %d): import[%d].global.ValType != i32", SectionIDName(sectionID), sectionIdx, idx, i)
 				}
+				if imp.DescGlobal.Mutable {
+					return fmt.Errorf("%s[%d] (global.get %d): import[%d].global is mutable", SectionIDName(sectionID), sectionIdx, idx, i)
+				}
 				return nil
 			}
 		}
 	}
 	return fmt.Errorf("%s[%d] (global.get %d): out of range of imported globals", SectionIDName(sectionID), sectionIdx, idx)
+}
+
+func (m *Module) verifyImportGlobalRef(sectionIdx, initIdx Index, idx uint32, refType RefType) error {
+	ig := uint32(math.MaxUint32) // +1 == 0
+	for i := range m.ImportSection {
+		imp := &m.ImportSection[i]
+		if imp.Type == ExternTypeGlobal {
+			ig++
+			if ig == idx {
+				if imp.DescGlobal.ValType != refType {
+					return fmt.Errorf("%s[%d].init[%d] (global.get %d): import[%d].global.ValType != %s",
+						SectionIDName(SectionIDElement), sectionIdx, initIdx, idx, i, RefTypeName(refType))
+				}
+				if imp.DescGlobal.Mutable {
+					return fmt.Errorf("%s[%d].init[%d] (global.get %d): import[%d].global is mutable",
+						SectionIDName(SectionIDElement), sectionIdx, initIdx, idx, i)
+				}
+				return nil
+			}
+		}
+	}
+	return fmt.Errorf("%s[%d].init[%d] (global.get %d): out of range of imported globals",
+		SectionIDName(SectionIDElement), sectionIdx, initIdx, idx)
 }
 
 // Grow appends the `initialRef` by `delta` times into the References slice.
